@@ -64,6 +64,10 @@ type result struct {
 // (192.168.1.2) while the first uses the wildcard address: still one shared port.
 var splitBindIP = "192.168.1.2"
 
+// zeroBindAddr: fixed bind ports are configured as types.BindAddrFrom(netip.Addr{}, port) instead of
+// 0.0.0.0:port (set by the scenario body; both mean the wildcard address)
+var zeroBindAddr = false
+
 func mkClient(bind uint16, calls []call, which int) uhppote.IUHPPOTE {
 	return mkClientOn(bind, "0.0.0.0", calls, which)
 }
@@ -81,6 +85,9 @@ func mkClientOn(bind uint16, ip string, calls []call, which int) uhppote.IUHPPOT
 	b := types.BindAddr{}
 	if bind != 0 || ip != "0.0.0.0" {
 		b = types.BindAddrFrom(netip.MustParseAddr(ip), bind)
+	}
+	if zeroBindAddr && bind != 0 {
+		b = types.BindAddrFrom(netip.Addr{}, bind) // "any address, this port" written with the zero netip.Addr
 	}
 	return uhppote.NewUHPPOTE(b, types.BroadcastAddrFrom(netip.MustParseAddr("192.168.1.255"), 60000), types.ListenAddr{}, T, devices, false)
 }
@@ -138,6 +145,7 @@ func callScenario(name string, bind uint16, calls []call, bound int, discovery b
 }
 
 func callScenarioX(name string, bind uint16, calls []call, bound int, discovery bool, splitBind bool) e1.Scenario {
+	zero := strings.HasSuffix(name, "/zero-bind-addr")
 	var res []*result
 	var devs []map[string]any
 	var devErr error
@@ -151,6 +159,7 @@ func callScenarioX(name string, bind uint16, calls []call, bound int, discovery 
 		return spec.EncodeRequest(spec.OpByName(c.op), ctrls[c.ctrl].serial, c.args)
 	}
 	body := func() {
+		zeroBindAddr = zero
 		res = make([]*result, len(calls))
 		devs, devErr = nil, nil
 		cur := res
@@ -759,6 +768,7 @@ func main() {
 				b = 2
 			}
 			scenarios = append(scenarios, callScenario(fmt.Sprintf("3calls-staggered/bind=60001/%s/same=%v", p, same), 60001, calls, b, false))
+			scenarios = append(scenarios, callScenario(fmt.Sprintf("3calls-staggered/bind=60001/%s/same=%v/zero-bind-addr", p, same), 60001, calls[:2], 2, false))
 		}
 	}
 	// discovery while replies are still arriving, alongside a directed call
@@ -810,7 +820,7 @@ func main() {
 	if r.Worker == "" && r.Replay == "" {
 		racePass(r)
 	}
-	r.Rule("2 (thorough also 3) harness threads x {bind port 0, fixed} x {one shared client, two clients (also: same fixed port on the wildcard and on a specific local address)} x {same, different controller} x paths {udp,tcp,broadcast}^2 x reply delays {0,0.4T,0.8T}^2 x start offset {0,0.3T} x 3 operation pairs; every one of the 31 directed operations concurrently with itself and with PutCard (<= 1 preemption; quick: connected-UDP path only); a failing call (silent controller, stalled / refused / reset TCP) followed by and concurrent with calls that must succeed; three staggered calls on one fixed port; 80 concurrent calls through one client (at most one non-default scheduling choice); discovery alongside a directed call; the listener, discovery and a directed call at once through one client; a call through a client whose own listener sits on its bind port while the controller pushes an event; Listen with two events and the stop signal at 5 offsets; two threads x two sequential calls; for each scenario ALL interleavings with <= 2 preemptions (thorough: the two-call scenarios under ALL interleavings without bound, three-call families with <= 3 preemptions). distinct = distinct per-call outcome labels observed")
+	r.Rule("2 (thorough also 3) harness threads x {bind port 0, fixed} x {one shared client, two clients (also: same fixed port on the wildcard and on a specific local address)} x {same, different controller} x paths {udp,tcp,broadcast}^2 x reply delays {0,0.4T,0.8T}^2 x start offset {0,0.3T} x 3 operation pairs; every one of the 31 directed operations concurrently with itself and with PutCard (<= 1 preemption; quick: connected-UDP path only); a failing call (silent controller, stalled / refused / reset TCP) followed by and concurrent with calls that must succeed; three staggered calls on one fixed port (two of them also with the port configured on the zero netip.Addr); 80 concurrent calls through one client (at most one non-default scheduling choice); discovery alongside a directed call; the listener, discovery and a directed call at once through one client; a call through a client whose own listener sits on its bind port while the controller pushes an event; Listen with two events and the stop signal at 5 offsets; two threads x two sequential calls; for each scenario ALL interleavings with <= 2 preemptions (thorough: the two-call scenarios under ALL interleavings without bound, three-call families with <= 3 preemptions). distinct = distinct per-call outcome labels observed")
 	r.Assume("sequentially consistent memory; scheduling points at mutex, channel, socket and sleep operations; unsynchronised accesses to locals shared with goroutine closures and to package-level variables of every package of the module (uhppote, types, messages, encoding/*) are caught by the vector-clock detector; struct fields and heap objects reached through pointers only by the free-running -race pass")
 	r.Assume("the simulated network orders consecutive operations on one socket (fd mutex atomics), as the real net package does")
 	r.Finish()
